@@ -175,6 +175,189 @@ theorem mrs_SplitChildSlab_heap (d : Nat) (m : MMetaSlab (MTree r d)) (x : Optio
       Function.comp_def]
     rfl
 
+/-- the parent keeps its identifier -/
+theorem mrs_splitChildSlab_hdr_id {d : Nat} (m m' : MMetaSlab (MTree r d)) (child : MTree r d) (k : Nat) (c c' : Ctx)
+    (hm : MMetaSlab.splitChildSlab m child k c = .ok (m', c')) : m'.hdr.id = m.hdr.id := by
+  simp only [MMetaSlab.splitChildSlab, bind, Except.bind, pure, Except.pure] at hm
+  cases hres : MTree.split d child c with
+  | error e => rw [hres] at hm; cases hm
+  | ok p =>
+    obtain ⟨l, rr, c1⟩ := p
+    rw [hres] at hm
+    cases hm
+    rfl
+
+/-- **`MapMetaDataSlab.SplitChildSlab` of the restructuring record over the heap** = the model's
+    `MMetaSlab.splitChildSlab`: no error, the parent record of the model's new parent `m'`, the heap after the allocation
+    (`withCtx c1`: the `Ctx` after the child's `Split`) and the three `Store`s - the left half, the right half (records
+    `md_tree .. none`), the parent (with its extra data `x`) - and the child object, now the left half; the `Ctx` of that
+    storage is the model's. -/
+theorem Ob_SplitChildSlab_heap (d : Nat) (m : MMetaSlab (MTree r d)) (x : Option DX) (child : MTree r d) (k : Nat)
+    (s : MHSt r) (hk : k < m.childHdrs.length) (hok : msl_SplitOK d child)
+    {m' : MMetaSlab (MTree r d)} {c' c1 : Ctx} {l rr : MTree r d}
+    (hm : MMetaSlab.splitChildSlab m child k s.ctx = .ok (m', c'))
+    (hsp : MTree.split d child s.ctx = .ok (l, rr, c1))
+    (hfl : mr_RootFit d l) (hfr : mr_RootFit d rr) :
+    (rsOf T).splitChild (md_meta m x) s (md_tree d child none) (Int.ofNat k) =
+      (none, md_meta m' x,
+        (((s.withCtx c1).store (MTree.hdr d l).id (md_tree d l none)).store (MTree.hdr d rr).id (md_tree d rr none)).store
+          m'.hdr.id (.metaSlab (md_meta m' x)),
+        md_tree d l none) ∧
+    ((((s.withCtx c1).store (MTree.hdr d l).id (md_tree d l none)).store (MTree.hdr d rr).id (md_tree d rr none)).store
+          m'.hdr.id (.metaSlab (md_meta m' x))).ctx = c' := by
+  have hfit' : ∀ l' rr' c1', MTree.split d child s.ctx = .ok (l', rr', c1') → mr_RootFit d l' ∧ mr_RootFit d rr' := by
+    intro l' rr' c1' h
+    rw [hsp] at h
+    cases h
+    exact ⟨hfl, hfr⟩
+  have h := mrs_SplitChildSlab_heap T d m x child k s hk hok hfit'
+  simp only [hsp, hm] at h
+  constructor
+  · simp only [rsOf, mr_metaM_md_meta, mr_toM_md_tree_none, h, mr_metaD_cMeta, mr_fromM_cTree d l hfl, mrs_splitChildSt]
+  · simp only [MMetaSlab.splitChildSlab, hsp, bind, Except.bind, pure, Except.pure] at hm
+    cases hm
+    rfl
+
+/-- the error case (the child has fewer than 2 elements / children): the error class of the model, parent, storage and
+    child untouched (`mr_RootFit d child`: the child object goes through `mr_toM` / `mr_fromM`) -/
+theorem Ob_SplitChildSlab_heap_error (d : Nat) (m : MMetaSlab (MTree r d)) (x : Option DX) (child : MTree r d) (k : Nat)
+    (s : MHSt r) (hk : k < m.childHdrs.length) (hok : msl_SplitOK d child) (hfc : mr_RootFit d child) {e : MErr}
+    (hm : MMetaSlab.splitChildSlab m child k s.ctx = .error e) :
+    (rsOf T).splitChild (md_meta m x) s (md_tree d child none) (Int.ofNat k) =
+      (some e, md_meta m x, s, md_tree d child none) := by
+  cases hsp : MTree.split d child s.ctx with
+  | ok p =>
+    obtain ⟨l, rr, c1⟩ := p
+    simp only [MMetaSlab.splitChildSlab, hsp, bind, Except.bind, pure, Except.pure] at hm
+    cases hm
+  | error e' =>
+    have he : e' = e := by
+      simp only [MMetaSlab.splitChildSlab, hsp, bind, Except.bind] at hm
+      cases hm
+      rfl
+    subst he
+    have hfit' : ∀ l' rr' c1', MTree.split d child s.ctx = .ok (l', rr', c1') → mr_RootFit d l' ∧ mr_RootFit d rr' := by
+      intro l' rr' c1' h
+      rw [hsp] at h
+      cases h
+    have h := mrs_SplitChildSlab_heap T d m x child k s hk hok hfit'
+    simp only [hsp] at h
+    simp only [rsOf, mr_metaM_md_meta, mr_toM_md_tree_none, h, mr_metaD_cMeta, mr_fromM_cTree d child hfc]
+
+/-! ## what the heap holds after `SplitChildSlab` -/
+
+/-- `MHolds` only looks at the identifiers of the tree -/
+theorem mrs_MHolds_congr : ∀ (d : Nat) (t : MTree r d) (x : Option DX) (h h' : SlabID → Option (DSlab r)),
+    (∀ id ∈ md_ids d t, h' id = h id) → MHolds h d t x → MHolds h' d t x
+  | 0, t, x, h, h', hyp, hh => by
+    have e : h' (MTree.hdr 0 t).id = h (MTree.hdr 0 t).id := hyp _ (List.mem_singleton.mpr rfl)
+    exact e.trans hh
+  | d + 1, t, x, h, h', hyp, hh => by
+    refine ⟨?_, fun c hc => ?_⟩
+    · have e : h' (MTree.hdr (d + 1) t).id = h (MTree.hdr (d + 1) t).id := hyp _ (List.mem_cons_self)
+      exact e.trans hh.1
+    · exact mrs_MHolds_congr d c none h h'
+        (fun id hid => hyp id (List.mem_cons_of_mem _ (List.mem_flatMap.mpr ⟨c, hc, hid⟩))) (hh.2 c hc)
+
+/-- the children of a subtree root are held (nothing to hold below a data slab) -/
+def mrs_KidsHeld (h : SlabID → Option (DSlab r)) : (d : Nat) → MTree r d → Prop
+  | 0, _ => True
+  | d + 1, (m : MMetaSlab (MTree r d)) => ∀ c ∈ m.children, MHolds h d c none
+
+/-- the identifiers of the slabs below a subtree root -/
+def mrs_kidIds : (d : Nat) → MTree r d → List SlabID
+  | 0, _ => []
+  | d + 1, (m : MMetaSlab (MTree r d)) => m.children.flatMap (md_ids d)
+
+theorem mrs_md_ids_eq (d : Nat) (t : MTree r d) : md_ids d t = (MTree.hdr d t).id :: mrs_kidIds d t := by
+  cases d <;> rfl
+
+theorem mrs_holds_of_kids (h : SlabID → Option (DSlab r)) (d : Nat) (t : MTree r d) (x : Option DX)
+    (hroot : h (MTree.hdr d t).id = some (md_tree d t x)) (hk : mrs_KidsHeld h d t) : MHolds h d t x := by
+  cases d with
+  | zero => exact hroot
+  | succ d => exact ⟨hroot, hk⟩
+
+theorem mrs_KidsHeld_congr (h h' : SlabID → Option (DSlab r)) (d : Nat) (t : MTree r d)
+    (hyp : ∀ id ∈ mrs_kidIds d t, h' id = h id) (hk : mrs_KidsHeld h d t) : mrs_KidsHeld h' d t := by
+  cases d with
+  | zero => trivial
+  | succ d =>
+    intro c hc
+    exact mrs_MHolds_congr d c none h h' (fun id hid => hyp id (List.mem_flatMap.mpr ⟨c, hc, hid⟩)) (hk c hc)
+
+/-- what `Split` does to identifiers and children: the left half keeps the identifier, the right half gets the allocated
+    one, the children are distributed -/
+theorem mrs_split_shape (d : Nat) (child l rr : MTree r d) (c c1 : Ctx) (hsp : MTree.split d child c = .ok (l, rr, c1)) :
+    (MTree.hdr d l).id = (MTree.hdr d child).id ∧
+    (MTree.hdr d rr).id = (c.alloc (MTree.hdr d child).id.addr).1 ∧
+    (∀ id, id ∈ mrs_kidIds d l ∨ id ∈ mrs_kidIds d rr → id ∈ mrs_kidIds d child) ∧
+    (∀ h, mrs_KidsHeld h d child → mrs_KidsHeld h d l ∧ mrs_KidsHeld h d rr) := by
+  cases d with
+  | zero =>
+    simp only [MTree.split, MDataSlab.split] at hsp
+    split at hsp
+    · cases hsp
+    · cases hsp
+      exact ⟨rfl, rfl, fun id h => by cases h <;> assumption, fun _ _ => ⟨trivial, trivial⟩⟩
+  | succ d =>
+    simp only [MTree.split, MMetaSlab.split] at hsp
+    split at hsp
+    · cases hsp
+    · cases hsp
+      refine ⟨rfl, rfl, ?_, fun h hk => ⟨fun c hc => hk c (List.mem_of_mem_take hc), fun c hc => hk c (List.mem_of_mem_drop hc)⟩⟩
+      intro id hid
+      rcases hid with hid | hid
+      · obtain ⟨c, hc, hin⟩ := List.mem_flatMap.mp hid
+        exact List.mem_flatMap.mpr ⟨c, List.mem_of_mem_take hc, hin⟩
+      · obtain ⟨c, hc, hin⟩ := List.mem_flatMap.mp hid
+        exact List.mem_flatMap.mpr ⟨c, List.mem_of_mem_drop hc, hin⟩
+
+/-- **the heap after `SplitChildSlab`**: if the slabs below `child` were held, the fresh identifier of the right half is
+    neither an identifier of `child`'s subtree nor the parent's, the parent's identifier is not in `child`'s subtree and
+    `child`'s identifier is not below it, then the heap holds both halves, the parent record under the parent's
+    identifier, and every other identifier is untouched -/
+theorem Ob_SplitChildSlab_heapPost (d : Nat) (m m' : MMetaSlab (MTree r d)) (x : Option DX) (child l rr : MTree r d)
+    (k : Nat) (c' c1 : Ctx) (s : MHSt r)
+    (hm : MMetaSlab.splitChildSlab m child k s.ctx = .ok (m', c'))
+    (hsp : MTree.split d child s.ctx = .ok (l, rr, c1))
+    (hkids : mrs_KidsHeld s.heap d child)
+    (hfresh : (MTree.hdr d rr).id ∉ md_ids d child) (hfreshm : (MTree.hdr d rr).id ≠ m.hdr.id)
+    (hpar : m.hdr.id ∉ md_ids d child) (hnd : (MTree.hdr d child).id ∉ mrs_kidIds d child) :
+    let s' := (((s.withCtx c1).store (MTree.hdr d l).id (md_tree d l none)).store (MTree.hdr d rr).id
+      (md_tree d rr none)).store m'.hdr.id (.metaSlab (md_meta m' x))
+    MHolds s'.heap d l none ∧ MHolds s'.heap d rr none ∧
+    s'.heap m'.hdr.id = some (.metaSlab (md_meta m' x)) ∧
+    (∀ id, id ≠ (MTree.hdr d l).id → id ≠ (MTree.hdr d rr).id → id ≠ m'.hdr.id → s'.heap id = s.heap id) := by
+  intro s'
+  have hmid := mrs_splitChildSlab_hdr_id m m' child k s.ctx c' hm
+  obtain ⟨hlid, _, hsub, hheld⟩ := mrs_split_shape d child l rr s.ctx c1 hsp
+  obtain ⟨hkl, hkr⟩ := hheld s.heap hkids
+  rw [mrs_md_ids_eq] at hfresh hpar
+  have hheap : ∀ id, s'.heap id = if id = m'.hdr.id then some (.metaSlab (md_meta m' x))
+      else if id = (MTree.hdr d rr).id then some (md_tree d rr none)
+      else if id = (MTree.hdr d l).id then some (md_tree d l none) else s.heap id := fun _ => rfl
+  have hframe : ∀ id, id ≠ (MTree.hdr d l).id → id ≠ (MTree.hdr d rr).id → id ≠ m'.hdr.id → s'.heap id = s.heap id := by
+    intro id h1 h2 h3
+    rw [hheap, if_neg h3, if_neg h2, if_neg h1]
+  have hlr : (MTree.hdr d l).id ≠ (MTree.hdr d rr).id := by
+    rw [hlid]; intro e; exact hfresh (e ▸ List.mem_cons_self)
+  have hlm : (MTree.hdr d l).id ≠ m'.hdr.id := by
+    rw [hlid, hmid]; intro e; exact hpar (e ▸ List.mem_cons_self)
+  have hrm : (MTree.hdr d rr).id ≠ m'.hdr.id := by rw [hmid]; exact hfreshm
+  have hkid : ∀ id, id ∈ mrs_kidIds d child → s'.heap id = s.heap id := by
+    intro id hid
+    refine hframe id ?_ ?_ ?_
+    · rw [hlid]; intro e; exact hnd (e ▸ hid)
+    · intro e; exact hfresh (e ▸ List.mem_cons_of_mem _ hid)
+    · rw [hmid]; intro e; exact hpar (e ▸ List.mem_cons_of_mem _ hid)
+  refine ⟨?_, ?_, ?_, hframe⟩
+  · refine mrs_holds_of_kids _ d l none ?_ (mrs_KidsHeld_congr s.heap _ d l (fun id hid => hkid id (hsub id (Or.inl hid))) hkl)
+    rw [hheap, if_neg hlm, if_neg hlr, if_pos rfl]
+  · refine mrs_holds_of_kids _ d rr none ?_ (mrs_KidsHeld_congr s.heap _ d rr (fun id hid => hkid id (hsub id (Or.inr hid))) hkr)
+    rw [hheap, if_neg hrm, if_pos rfl]
+  · rw [hheap, if_pos rfl]
+
 end split
 
 end Atree.TransEq
